@@ -256,9 +256,20 @@ func rawScenario(r *vh.Run, kind kit.Kind, regime string, n int, round int) {
 		}
 	}
 	r.Count("raw_calls", int64(len(calls)))
-	if len(outs) > 0 {
+	if len(outs) > 0 && sampleOnce("raw") {
 		r.Sample(map[string]interface{}{"scenario": "raw", "kind": kind, "regime": regime, "id": outs[0].call.RawID, "nonce": outs[0].call.Nonce, "answer": firstOr(outs[0].frames)})
 	}
+}
+
+// sampleOnce: the evidence file keeps six samples; one per scenario family leaves room for every family.
+var sampled = map[string]bool{}
+
+func sampleOnce(family string) bool {
+	if sampled[family] {
+		return false
+	}
+	sampled[family] = true
+	return true
 }
 
 func firstOr(s []string) string {
@@ -456,7 +467,7 @@ func libScenario(r *vh.Run, kind kit.Kind, regime string, K, M int, startID int6
 		}
 	}
 	r.Count("lib_calls", int64(len(results)))
-	if len(results) > 0 {
+	if len(results) > 0 && sampleOnce("lib") {
 		r.Sample(map[string]interface{}{"scenario": "lib", "kind": kind, "regime": regime, "clients": K, "in_flight_per_client": M, "start_id": startID, "first": results[0].nonce})
 	}
 }
@@ -570,9 +581,15 @@ func main() {
 	}
 	kit.Events.Reset()
 	slowReader(r, 150, 100<<10)
+	pressureScenarios(r)
 
 	r.Finish("7 server configurations x {raw peer, library client} x completion regimes {immediate, random delay, barrier release}; "+
 		"raw peers use every id class (small/large integers up to 2^53, strings incl. digit strings and non-ASCII, same value as string and integer); "+
-		"library clients cross the 10^6 and 2^31 id boundaries and run up to exactly 2^53; legacy-SSE slow-reader scenario. A case is distinct by (scenario, configuration, regime, id class) and non-trivial when its answer was checked for id, nonce and digest.",
-		[]string{"ids above 2^53 are outside the statement", "interleavings are sampled, not enumerated", "a missing answer is judged after a 20 s wait on an otherwise idle loopback connection"})
+		"library clients cross the 10^6 and 2^31 id boundaries and run up to exactly 2^53; legacy-SSE slow-reader scenario; "+
+		"back-pressure episodes on all 7 configurations: the peer stops reading (legacy event stream with a small fixed receive buffer, stdio stdout pipe, Streamable POST response bodies) while more answers than the "+
+		"legacy server's 100-slot queue holds are in flight on one session, the in-flight calls taking every answer path (result, large result, isError, handler Go error, unknown tool, invalid / missing params, "+
+		"unknown method, middleware Go error, NaN / chan results, nil content, prompt and resource successes and failures, ping, lists); after the peer resumes every call must have exactly one answer with its own id "+
+		"(and its own content where the handler computes it from the arguments). A case is distinct by (scenario, configuration, regime, id class) and non-trivial when its answer was checked for id, nonce and digest.",
+		[]string{"ids above 2^53 are outside the statement", "interleavings are sampled, not enumerated", "a missing answer is judged after a 20 s wait on an otherwise idle loopback connection",
+			"back-pressure episodes: an answer is called missing only after the stream delivered nothing for 15 s AND two pings posted afterwards were answered on the same stream (Streamable: the POST's own response ended in order without it)"})
 }
